@@ -252,7 +252,14 @@ def rule_pure(run):
     pure_rule(run, [fi for name, fi in sorted(cls.methods.items()) if name.startswith('write')])
 
 
+def rule_memo(run):
+    run.rule('MEMO', 'a result remembered between calls (memo dictionary, caching decorator) is keyed by every parameter it depends on', floor=1)
+    from .memo import memo_rule
+    memo_rule(run, ['t2incons'])
+
+
 def check(run):
+    run.guarded('MEMO', rule_memo)
     run.guarded('FLAVOUR', rule_flavour)
     run.guarded('PURE', rule_pure)
     run.guarded('LAYPREFIX', rule_layprefix)
